@@ -46,6 +46,13 @@ def mk(sid, L, R, pattern, direction="in"):
         for _ in range(3):
             steps += [["sleep", int(h * 600)], ["send", "c1", S.frame(S.UPDATE, b"\x00\x00\x00\x00").hex(), 0]]
         steps += [["recv_eof", "c1", h * 1000 + 1500]]
+    elif pattern == "local-writes":
+        # the plugin writes an UPDATE every 0.23 h (more often than the keep-alive interval) while the remote keeps the session
+        # alive; then both fall silent: no gap between consecutive KEEPALIVE/UPDATE messages from corebgp may exceed about h/3,
+        # in particular the first KEEPALIVE after the last write comes within h/3 of it (TimedW.v: the write re-arms the timer)
+        for _ in range(4):
+            steps += [["sleep", int(h * 230)], ["write", "00000000"], ["send", "c1", S.frame(S.KEEPALIVE).hex(), 0]]
+        steps += [["recv_eof", "c1", h * 1000 + 1500]]
     elif pattern == "update-just-before":
         steps += [["sleep", int(h * 1000 - 250)], ["send", "c1", S.frame(S.UPDATE, b"\x00\x00\x00\x00").hex(), 0],
                   ["recv_eof", "c1", h * 1000 + 1500]]
@@ -62,7 +69,8 @@ def convs(rng, tier):
         pairs += [(3, 4), (4, 3), (6, 6), (9, 9), (6, 3), (5 + 1, 65535)]
     for (L, R) in pairs:
         pats = ["silent", "silent-after-writes"] if min(L, R) == 0 else \
-            ["silent", "ka-then-silent", "update-just-before", "late-keepalive"] + (["update-only-nilhandler"] if (L, R) in ((3, 9), (9, 3)) else [])
+            ["silent", "ka-then-silent", "update-just-before", "late-keepalive"] + (["update-only-nilhandler"] if (L, R) in ((3, 9), (9, 3)) else []) \
+            + (["local-writes"] if min(L, R) == 3 else [])
         for p in pats:
             for d in (("in", "out") if tier == "thorough" or p == "silent" else ("in",)):
                 out.append(mk(sid, L, R, p, d))
@@ -107,6 +115,14 @@ def timing_check(c, e, o, r):
             bad.append("hold %d s: expired %d ms after the hold timer was last restarted (late)" % (c.h, t_exp - before[-1]["at"]))
         if not cr["eof"]:
             bad.append("connection not closed after hold timer expiry")
+    if getattr(c, "pattern", "") == "local-writes":
+        ok_writes = [w for w in (r.get("writes") or []) if w.get("name") == "write" and not w.get("err")]
+        rearms = [ev for ev in r["events"] or [] if ev["kind"] == "t.ka" and int(ev["args"][1]) == c.h * 10 ** 9 // 3 and ev["at"] >= t_est]
+        if len(ok_writes) < 4:
+            bad.append("hold %d s: only %d of 4 local WriteUpdate calls succeeded while the session was up" % (c.h, len(ok_writes)))
+        elif len(rearms) < len(ok_writes):
+            bad.append("hold %d s: %d UPDATEs written by the plugin but the keep-alive timer was re-armed only %d times after establishment"
+                       % (c.h, len(ok_writes), len(rearms)))
     # keepalive cadence while up
     times = [m["at"] for m in sent]
     end = expiry[0]["at"] if expiry else (cr["eof_at"] or (times[-1] if times else t_est))
